@@ -23,6 +23,16 @@ Inductive guard :=
   | GR (owner : string)                 (* some path completes without reaching the guard *)
   | GU (owner : string) (what : string). (* fitted state `what` touched before the guard *)
 
+(* what fit (own or inherited; `owner` = class whose body runs) does on its completing paths *)
+Inductive fitfact :=
+  | FNone                               (* no fit in the table's code *)
+  | FA (owner : string)                 (* abstract: the body only raises *)
+  | FX (base : string)                  (* scikit-learn's fit *)
+  | FF (owner : string)
+       (returns : string)               (* "self" iff every completing path returns self *)
+       (flag : string)                  (* "set" iff self._is_fitted = True was executed on every such path *)
+       (early : bool).                  (* such an assignment is followed by more than `return` *)
+
 Record class_row := Row {
   r_key : string;                        (* class name (name@module when ambiguous) *)
   r_module : string;
@@ -31,7 +41,8 @@ Record class_row := Row {
   r_methods : list (string * guard);
   (* (entry, owner, p): public method `entry` reaches code of class `owner` assigning self.p,
      p a constructor parameter of this class *)
-  r_mutates : list (string * string * string) }.
+  r_mutates : list (string * string * string);
+  r_fit : fitfact }.
 
 Definition str_eqb := String.eqb.
 
@@ -118,3 +129,17 @@ Definition params_stable_ok_or_known (known : list (string * string)) (r : class
   forallb (fun x => match x with (_, o, q) => mem2 known o q end) (r_mutates r).
 
 Definition params_stable_ok := params_stable_ok_or_known [].
+
+(* fit returns self and sets the fitted flag last; exception = (owner, returns, flag) *)
+Definition mem3 (l : list (string * string * string)) (a b c : string) : bool :=
+  existsb (fun x => match x with (p, q, r) => str_eqb p a && str_eqb q b && str_eqb r c end) l.
+
+Definition fit_ok_or_known (known : list (string * string * string)) (r : class_row) : bool :=
+  match r_fit r with
+  | FNone | FA _ | FX _ => true
+  | FF o ret flag early =>
+      (str_eqb ret "self" && str_eqb flag "set" && negb early) ||
+      (mem3 known o ret flag && negb early)
+  end.
+
+Definition fit_ok := fit_ok_or_known [].
